@@ -13,7 +13,7 @@ vars == <<sc, phase, status, stdout, visited>>
 Graphs == {"single", "chain", "diamond", "wide", "self", "cycle2", "missing", "dirtarget"}
 Contents == {"valid", "empty", "syntax", "model", "lifecycle", "noprice", "accrualInverted", "accrualUnopened", "zeroPrice", "year1", "binary", "noTransactions"}
 Cmds == {"check", "checkwrite", "balance", "balanceV", "print", "format", "infer", "transcode", "returns", "weights"}
-FlagClasses == {"none", "inverted", "lastNeg", "lastZero", "unknownV", "noV", "mapNeg", "mapSuffixNeg", "digitsNeg", "digitsHuge", "digitsMin", "lastHuge"}
+FlagClasses == {"none", "inverted", "lastNeg", "lastZero", "unknownV", "noV", "mapNeg", "mapSuffixNeg", "digitsNeg", "digitsHuge", "digitsMin", "lastHuge", "remapNew", "remapAll", "filters"}
 ReportCmds == {"balance", "balanceV", "print", "transcode", "infer", "checkwrite"}
 Windowed == {"balance", "balanceV", "returns", "weights"}
 NeedsV == {"balanceV", "transcode", "returns", "weights"}
@@ -24,7 +24,8 @@ Scenarios == {s \in [graph : Graphs, content : Contents, where : {"root", "leaf"
    /\ (s.flags \in {"unknownV", "noV"} => s.cmd \in NeedsV)
    /\ (s.flags \in {"mapNeg", "mapSuffixNeg"} => s.cmd \in {"balance", "balanceV", "weights"})
    /\ (s.flags \in {"digitsNeg", "digitsHuge", "digitsMin"} => s.cmd \in {"balance", "weights"})
-   /\ (s.flags = "lastHuge" => s.cmd \in Windowed)}
+   /\ (s.flags = "lastHuge" => s.cmd \in Windowed)
+   /\ (s.flags \in {"remapNew", "remapAll", "filters"} => s.cmd \in {"balance", "balanceV"})}
 
 \* format rewrites only the file it is given; every other command loads the include graph
 LoadsIncludes(s) == s.cmd # "format"
